@@ -154,3 +154,53 @@ def gen_value(rnd, env, t, max_len=5, depth=0):
         elif f == "ext":
             out.append([gen_value(rnd, env, m["t"], max_len, depth + 1) for _ in range(lens[m["c"]])])
     return ("struct", out)
+
+
+def gen_env_roles(rnd):
+    """A small environment with FIXED type names in fixed roles: T1 and T2 are
+    drawn from a menu of leaf types of every alignment and kind, T3 uses them
+    as plain member, optional, array element and sizer-bound element, T4 is a
+    union over them, T5 the root.  Two draws share all names and differ in
+    what the names mean - for checks on state keyed by type name."""
+    I, M, R = S.Int, S.Mem, S.Ref
+
+    def leaf(prev):
+        menu = [
+            (S.StructDef([M("plain", I(1))]), FIXED),
+            (S.StructDef([M("plain", I(2))]), FIXED),
+            (S.StructDef([M("plain", I(4)), M("plain", I(1))]), FIXED),
+            (S.StructDef([M("plain", I(1)), M("plain", I(8))]), FIXED),
+            (S.StructDef([M("plain", S.Flt(8))]), FIXED),
+            (S.StructDef([M("opt", I(8))]), FIXED),
+            (S.StructDef([M("lim", I(2), 3)]), FIXED),
+            (S.StructDef([M("dyn", I(2))]), DYNAMIC),
+            (S.StructDef([M("plain", I(4)), M("dyn", I(8))]), DYNAMIC),
+            (S.EnumDef([1, 5]), FIXED),
+            (S.UnionDef([{"d": 1, "t": I(1)}]), FIXED),
+            (S.UnionDef([{"d": 1, "t": I(1)}, {"d": 2, "t": I(8)}]), FIXED),
+            (S.TypedefDef(I(2)), FIXED),
+            (S.TypedefDef(I(8)), FIXED),
+        ]
+        if prev is not None:
+            menu.append((S.TypedefDef(R(1)), prev))
+            menu.append((S.StructDef([M("plain", I(1)), M("plain", R(1))]), prev))
+        return rnd.choice(menu)
+
+    d1, k1 = leaf(None)
+    d2, k2 = leaf(k1)
+    ms = [M("plain", I(1))]
+    for i, k in ((1, k1), (2, k2)):
+        roles = ["plain", "dyn"] + (["opt", "fixed", "lim"] if k == FIXED else [])
+        for f in rnd.sample(roles, rnd.randint(1, len(roles))):
+            if f in ("fixed", "lim"):
+                ms.append(M(f, R(i), rnd.randint(1, 3)))
+            else:
+                ms.append(M(f, R(i)))
+    rnd.shuffle(ms)
+    ms.insert(0, M("plain", I(rnd.choice([1, 2, 4]))))
+    ms.append(M("ext", R(rnd.choice([1, 2])), 0, 1))
+    d3 = S.StructDef(ms)
+    arms = [{"d": 7, "t": I(2)}] + [{"d": i, "t": R(i)} for i, k in ((1, k1), (2, k2)) if k == FIXED and rnd.random() < 0.8]
+    d4 = S.UnionDef(arms)
+    d5 = S.StructDef([M("plain", I(1)), M("opt", R(4)), M("plain", R(3))])
+    return [d1, d2, d3, d4, d5]
